@@ -122,6 +122,7 @@ func inlineRound(p *Prog, baseline map[string]bool) (map[string][]byte, []string
 				}
 				ctx.collectClosures()
 				ctx.walkStmts(fd.Body)
+				ctx.finishClosures()
 				edits = append(edits, ctx.edits...)
 				inlined = append(inlined, ctx.inlined...)
 				skipped = append(skipped, ctx.skipped...)
@@ -155,19 +156,24 @@ func inlineRound(p *Prog, baseline map[string]bool) (map[string][]byte, []string
 }
 
 type inlCtx struct {
-	p         *Prog
-	pk        *packages.Package
-	file      *ast.File
-	tf        *token.File
-	src       []byte
-	caller    *ast.FuncDecl
-	callerKey string
-	baseline  map[string]bool
-	closures  map[types.Object]*ast.FuncLit // local closure variables eligible for inlining
-	edits     []inlineEdit
-	inlined   []string
-	skipped   []string
-	counter   int
+	p              *Prog
+	pk             *packages.Package
+	file           *ast.File
+	tf             *token.File
+	src            []byte
+	caller         *ast.FuncDecl
+	callerKey      string
+	baseline       map[string]bool
+	closures       map[types.Object]*ast.FuncLit // local closure variables eligible for inlining
+	closureDef     map[types.Object]ast.Node     // the statement that defines the closure variable
+	keptAlive      map[types.Object]bool
+	callUses       map[types.Object]int
+	inlinedUse     map[types.Object]int
+	edits          []inlineEdit
+	inlined        []string
+	skipped        []string
+	counter        int
+	pendingClosure types.Object
 }
 
 func (c *inlCtx) text(n ast.Node) string {
@@ -179,6 +185,10 @@ func (c *inlCtx) text(n ast.Node) string {
 func (c *inlCtx) collectClosures() {
 	info := c.pk.TypesInfo
 	c.closures = map[types.Object]*ast.FuncLit{}
+	c.closureDef = map[types.Object]ast.Node{}
+	c.keptAlive = map[types.Object]bool{}
+	c.callUses = map[types.Object]int{}
+	c.inlinedUse = map[types.Object]int{}
 	assigns := map[types.Object]int{}
 	lit := map[types.Object]*ast.FuncLit{}
 	ast.Inspect(c.caller.Body, func(n ast.Node) bool {
@@ -197,6 +207,19 @@ func (c *inlCtx) collectClosures() {
 				if t.Tok == token.DEFINE && len(t.Lhs) == len(t.Rhs) {
 					if fl, isL := t.Rhs[i].(*ast.FuncLit); isL {
 						lit[o] = fl
+						c.closureDef[o] = t
+					}
+				}
+			}
+		case *ast.DeclStmt:
+			if gd, ok := t.Decl.(*ast.GenDecl); ok {
+				for _, sp := range gd.Specs {
+					if vs, ok := sp.(*ast.ValueSpec); ok {
+						for _, nm := range vs.Names {
+							if o := info.Defs[nm]; o != nil {
+								c.closureDef[o] = t
+							}
+						}
 					}
 				}
 			}
@@ -231,6 +254,7 @@ func (c *inlCtx) collectClosures() {
 				if len(parents) > 0 {
 					if call, isC := parents[len(parents)-1].(*ast.CallExpr); isC && call.Fun == ast.Expr(id) {
 						isFun = true
+						c.callUses[o]++
 					}
 					// `_ = name` keeps an otherwise unused closure variable alive: not a real use
 					if as, isA := parents[len(parents)-1].(*ast.AssignStmt); isA && len(as.Lhs) == 1 && len(as.Rhs) == 1 && as.Rhs[0] == ast.Expr(id) {
@@ -251,6 +275,33 @@ func (c *inlCtx) collectClosures() {
 		if assigns[o] == 1 && calledOnly[o] && !c.baseline[c.callerKey+"$"+o.Name()] {
 			c.closures[o] = fl
 		}
+	}
+}
+
+// finishClosures removes the definition of a closure all of whose calls were inlined (its body would otherwise stay
+// behind as dead code that the rules still read), or keeps the variable alive when some calls remain.
+func (c *inlCtx) finishClosures() {
+	for o, n := range c.inlinedUse {
+		def := c.closureDef[o]
+		if n == 0 || def == nil {
+			continue
+		}
+		start, end := c.tf.Offset(def.Pos()), c.tf.Offset(def.End())
+		as, isAssign := def.(*ast.AssignStmt)
+		if n == c.callUses[o] && isAssign && len(as.Lhs) == 1 {
+			// drop `name := func...` unless one of the inlined calls sits inside that very statement
+			nested := false
+			for _, e := range c.edits {
+				if e.start >= start && e.end <= end {
+					nested = true
+				}
+			}
+			if !nested {
+				c.edits = append(c.edits, inlineEdit{start: start, end: end, text: "// closure " + o.Name() + " inlined at all its call sites"})
+				continue
+			}
+		}
+		c.edits = append(c.edits, inlineEdit{start: end, end: end, text: "\n_ = " + o.Name() + "\n"})
 	}
 }
 
@@ -335,6 +386,7 @@ func (c *inlCtx) calleeOf(call *ast.CallExpr) (name string, ft *ast.FuncType, bo
 		if o := info.Uses[id]; o != nil {
 			if fl := c.closures[o]; fl != nil {
 				s, _ := info.Types[fl].Type.(*types.Signature)
+				c.pendingClosure = o
 				return c.callerKey + "$" + o.Name(), fl.Type, fl.Body, nil, c.file, s, s != nil
 			}
 		}
@@ -370,6 +422,7 @@ func (c *inlCtx) skip(call *ast.CallExpr, name, why string) {
 
 // tryCall generates the replacement of st when call is an inlinable call.
 func (c *inlCtx) tryCall(st ast.Stmt, call *ast.CallExpr, kind callKind, as *ast.AssignStmt, neg bool) {
+	c.pendingClosure = nil
 	name, ft, body, recv, calleeFile, sig, ok := c.calleeOf(call)
 	if !ok {
 		return
@@ -758,6 +811,18 @@ func (c *inlCtx) tryCall(st ast.Stmt, call *ast.CallExpr, kind callKind, as *ast
 		pre = append(pre, fmt.Sprintf("var %s %s", t, typeStr(sig.Results().At(0).Type())))
 		targets = append(targets, t)
 	}
+	// a target whose name is also declared inside the callee body would be captured by that declaration: such results
+	// go through temporaries that are copied to the real targets after the inlined block
+	var copyBack []string
+	for i, t := range targets {
+		if t == "_" || !declared[strings.SplitN(t, ".", 2)[0]] {
+			continue
+		}
+		tmp := fmt.Sprintf("%s_t%d", tag, i)
+		pre = append(pre, fmt.Sprintf("var %s %s", tmp, typeStr(sig.Results().At(i).Type())))
+		copyBack = append(copyBack, fmt.Sprintf("%s = %s", t, tmp))
+		targets[i] = tmp
+	}
 	// ---- fresh copy of the callee body, rewritten
 	bodyText := string(calleeSrc[calleeTF.Offset(body.Lbrace) : calleeTF.Offset(body.Rbrace)+1])
 	fset := token.NewFileSet()
@@ -983,6 +1048,9 @@ func (c *inlCtx) tryCall(st ast.Stmt, call *ast.CallExpr, kind callKind, as *ast
 		sb.WriteString(d + "\n")
 	}
 	sb.WriteString("}\n")
+	for _, l := range copyBack {
+		sb.WriteString(l + "\n")
+	}
 	switch kind {
 	case kindIfInit:
 		ifs := st.(*ast.IfStmt)
@@ -1030,6 +1098,9 @@ func (c *inlCtx) tryCall(st ast.Stmt, call *ast.CallExpr, kind callKind, as *ast
 	}
 	c.edits = append(c.edits, inlineEdit{start: start, end: end, text: text})
 	c.inlined = append(c.inlined, fmt.Sprintf("%s <- %s", c.callerKey, name))
+	if o := c.pendingClosure; o != nil && strings.HasSuffix(name, "$"+o.Name()) {
+		c.inlinedUse[o]++
+	}
 }
 
 // replaceIdent replaces whole-word occurrences of name in s.
